@@ -185,7 +185,9 @@ impl Engine {
         if res.ok != pred {
             if res.ok {
                 self.v("C12", "accept_only_nominee_after_7d", format!("AcceptOwnership by {} succeeded at {} with nomination {:?}", sender, now, self.m.nominee));
-                self.v("C08", "accept_nominee_only", format!("AcceptOwnership by {} succeeded with nomination {:?}", sender, self.m.nominee));
+                if self.m.nominee.as_ref().map(|n| n.0 != sender).unwrap_or(true) {
+                    self.v("C08", "accept_nominee_only", format!("AcceptOwnership by {} succeeded with nomination {:?}", sender, self.m.nominee));
+                }
             } else if !res.env_fault && !res.panicked {
                 self.v("C12", "nominee_can_accept_after_7d", format!("AcceptOwnership by the nominee at {} (min time {:?}) refused: {}", now, self.m.nominee, res.err));
             }
